@@ -147,6 +147,10 @@ def test_family(rep, name, mk, degree_of, lv, start, end, a, b, reuse=True):
         with impl.quiet(), impl.watchdog(120):
             grid.setCurrentArea(np.array(start), np.array(end), lv)
             n_ann = [int(x) for x in grid.levelToNumPoints(lv)]
+            if min(n_ann) == 0:
+                # a level / box for which the family has no point at all (level 0 of the whole domain without boundary points): nothing to integrate with
+                rep.exclude('%s: no points on level 0 of the whole domain without boundary points' % name)
+                return
             pts = [tuple(float(x) for x in p) for p in grid.getPoints()]
             degs_1d = [degree_of(n) for n in n_ann]
             degs = [k for k in itertools.product(*[range(0, dg + 1) for dg in degs_1d]) if sum(1 for v in k if v > 0) <= 1 or D == 1][:12]
@@ -190,6 +194,11 @@ def families():
             ('lagrange-p3', lambda a, b: G.LagrangeGrid(a=a, b=b, boundary=True, p=3), lambda n: min(3, n - 1)),
             ('bspline-p3', lambda a, b: G.BSplineGrid(a=a, b=b, boundary=True, p=3), lambda n: min(3, n - 1)),
             ('bspline-p1', lambda a, b: G.BSplineGrid(a=a, b=b, boundary=True, p=1), lambda n: min(1, n - 1)),
+            # boundary points off with the modified (linearly extrapolating) basis: still exact for linear functions
+            ('trapezoid/modified-basis', lambda a, b: G.TrapezoidalGrid(a=a, b=b, boundary=False, modified_basis=True), lambda n: 1),
+            # tensor product of different one-dimensional families
+            ('mixed(trapezoid x clenshaw-curtis)', lambda a, b: G.MixedGrid(a=a, b=b, grids=[(G.TrapezoidalGrid1D if d % 2 == 0 else G.ClenshawCurtisGrid1D)(a=a[d], b=b[d], boundary=True)
+                                                                                      for d in range(len(a))]), lambda n: 1),
             # the point-by-point integrator the grids offer as integrator='old'
             ('trapezoid/old-integrator', lambda a, b: G.TrapezoidalGrid(a=a, b=b, boundary=True, integrator='old'), lambda n: 1),
             ('simpson/old-integrator', lambda a, b: G.SimpsonGrid(a=a, b=b, boundary=True, integrator='old'), lambda n: 3 if n >= 3 else 1),
